@@ -55,7 +55,18 @@ def rand_plane(rng, N, shape, cls, px, z, allow_single, need_shape=False):
     segs = np.zeros((k, m, n), dtype=int)
     for t, (r, c) in enumerate(pix):
         segs[rng.randrange(k) if t >= k else t, r, c] = 1
-    for s in segs:
+    if rng.random() < 0.35:
+        # segment masks that SHARE samples (as closely packed, antialiased segment masks do once they are made binary): the plane
+        # still transmits every sample once
+        shared = segs.copy()
+        for (r, c) in pix:
+            if rng.random() < 0.3:
+                shared[rng.randrange(k), r, c] = 1
+        owned = shared * ((np.cumsum(shared, axis=0) - shared) == 0)
+        if all(o.any() for o in owned):
+            segs = shared
+    owned = segs * ((np.cumsum(segs, axis=0) - segs) == 0)
+    for s in owned:
         rows, cols = np.flatnonzero(s.any(axis=1)), np.flatnonzero(s.any(axis=0))
         if len(rows) == 0 or (rows[-1] - rows[0] + 1) * (cols[-1] - cols[0] + 1) == 1:
             single = True
